@@ -343,6 +343,10 @@ impl Solver {
             Some(f) => {
                 let cur: u64 = std::fs::read_to_string(f).ok().and_then(|s| s.trim().parse().ok()).unwrap_or(0);
                 let _ = std::fs::write(f, format!("{}", cur + 1));
+                // which kind of response each point is (read by the fault-enumeration check after the fault-free run)
+                if let Ok(mut k) = std::fs::OpenOptions::new().create(true).append(true).open(format!("{f}.kinds")) {
+                    let _ = writeln!(k, "{kind_of_point}");
+                }
                 cur
             }
             None => 0,
